@@ -358,6 +358,8 @@ class ODF2MoinMoin(object):
                 continue
             if child.tagName == "text:list":
                 parts.append(self.listToString(child))
+            elif child.tagName == "table:table":
+                parts.append(self.tableToString(child))
             else:
                 parts.append(self.textToString(child))
         self.footnotes.append((cite, " ".join(parts)))
